@@ -41,7 +41,7 @@ META = dict(
 )
 
 TEMPLATES = ['one-chan', 'full', 'two-groups', 'group-only', 'str-chan', 'empty', 'root-only', 'list-int', 'dt-chan', 'str-props',
-             'chan-then-group', 'two-chans']
+             'chan-then-group', 'two-chans', 'rejected']
 TAGS = wr.NP_TAGS + ['datetime64', 'str']
 
 
@@ -76,6 +76,8 @@ def template(name, choose, idx, free=True):
         return [['group', 'g', [['s1', 'symstr:2'], ['s2', 'str']]], ['chan', 'g', 'a6', 'str', 2, [['s3', 'symstr:1']]]]
     if name == 'chan-then-group':
         return [['chan', 'g', 'a7', 'int32', 1, []], ['group', 'g', [['late', 'int:-2147483649']]], ['root', []]]
+    if name == 'rejected':
+        return [['chan', 'g2', 'r9', 'int32', 1, [['bad', 'unsupported']]]]
     if name == 'two-chans':
         return [['chan', 'g', 'a8', tag, n, []], ['chan', 'g', 'b8', tag, 2 - min(n, 2), []]]
     raise ValueError(name)
@@ -111,6 +113,8 @@ def check_streams(data_items, index_items, with_index):
     """independent structural checks; returns list of problem strings"""
     segs, problems = wr.parse_structure(data_items, b'TDSm', True)
     problems = list(problems)
+    if not segs and not data_items:
+        return problems, segs            # nothing was emitted (every call rejected)
     end = segs[-1]['data_start'] + int(segs[-1]['data_len']) if segs else 0
     if not problems and end != len(data_items):
         problems.append('trailing bytes after the last segment: %d of %d parsed' % (end, len(data_items)))
@@ -235,6 +239,8 @@ def concretize_program(task, inp):
         if kind.startswith('np:'):
             t = kind[3:]
             return np.dtype(t).type(wr.planted(t, 1, 3)[0])
+        if kind == 'unsupported':
+            return object()
         if kind.startswith('wrap:'):
             cls = getattr(types, kind[5:])
             return cls({'Int8': -5, 'Uint16': 65535, 'Uint64': 2 ** 64 - 1, 'SingleFloat': 0.5, 'Int64': -2 ** 62}[kind[5:]])
@@ -260,7 +266,12 @@ def concretize_program(task, inp):
     for ses in sessions:
         with TdmsWriter(data, version=ses['version'], index_file=index if task['index'] else False) as w:
             for seg in ses['segments']:
-                w.write_segment([obj(o) for o in seg])
+                rejected = any(k == 'unsupported' for o in seg for (_, k) in (o[1] if o[0] == 'root' else o[2] if o[0] == 'group' else o[5]))
+                try:
+                    w.write_segment([obj(o) for o in seg])
+                except TypeError:
+                    if not rejected:
+                        raise
     return data.getvalue(), (index.getvalue() if index else None)
 
 
